@@ -213,12 +213,17 @@ def finValueRes (d : FinDom) (k : Nat) : Res :=
     { val := d.valueAt env k, alts := [(.int (roundHalfEven (pre - m)), 0), (.int (roundHalfEven (pre + m)), 0)] }
   else { val := d.valueAt env k, tol := tol }
 
+/-- all integers of `[a, b]` (at most 64 of them, else the two ends) -/
+def intsBetween (a b : Int) : List Int :=
+  if b < a then [] else if b - a ≤ 64 then (List.range ((b - a).toNat + 1)).map (fun (i : Nat) => a + Int.ofNat i) else [a, b]
+
 def finIndexAlts (d : FinDom) (x : Rat) : List Nat :=
   if d.step env = 0 then [0]
   else
     let pre := d.indexPre env x
     let m := margin pre (16 * ulp1 * finIntMag d / absRat (d.step env))
-    [pre, pre - m, pre + m].map (fun p => (clipI (roundHalfEven p) 0 ((d.size : Int) - 1)).toNat)
+    let cl := fun (p : Rat) => clipI (roundHalfEven p) 0 ((d.size : Int) - 1)
+    (cl pre :: intsBetween (cl (pre - m)) (cl (pre + m))).map Int.toNat
 
 def resOfMany (rs : List Res) : Option Res :=
   match rs with
@@ -374,7 +379,8 @@ def encodeRes (c : Consts) (r : Range) (v : Val) : Except Err (List (List Rat)) 
         else match fr.indexPre env y with
           | .ok pre =>
             let m := margin pre (16 * ulp1 * (maxAbs fr.lowInt fr.upInt + 1) / absRat fr.step)
-            ([pre - m, pre + m].map (fun p => fr.rint.encode env c ((roundHalfEven p : Int) : Rat))).filterMap
+            let cl := fun (p : Rat) => clipI (roundHalfEven p) 0 ((fr.size : Int) - 1)
+            ((intsBetween (cl (pre - m)) (cl (pre + m))).map (fun (k : Int) => fr.rint.encode env c (k : Rat))).filterMap
               (fun e => match e with | .ok t => some t | .error _ => none)
           | .error _ => []
       | _, _ => []
